@@ -2111,3 +2111,224 @@ Proof.
   intros Hf. split; [apply cstep_refl|]. intros [W1 W2]. split; cbn; [exact W1|].
   apply Forall_upd; [|exact W2]. intros e He. rewrite Hf. exact He.
 Qed.
+
+Lemma bstep_bwf s s' : bstep_ok s s' -> bwf s -> bwf s'.
+Proof. intros [_ H]. exact H. Qed.
+
+Lemma poll_ok i s : bwf s -> bstep_ok s (poll i s).
+Proof.
+  intros W. unfold poll. destruct (nth_error (effs s) i) as [e|] eqn:He; [|apply bstep_refl].
+  destruct (negb (eff_ready s e)); [apply bstep_refl|].
+  destruct (negb (contains (b_core s) (e_key e))).
+  { set (s1 := set_eff s i _).
+    assert (B1 : bstep_ok s s1) by (apply set_eff_ok; reflexivity).
+    eapply bstep_trans; [exact B1|]. apply bstep_core, cstep_exec. }
+  destruct (negb (e_set e)); [apply set_eff_ok; reflexivity|].
+  destruct (paused (b_core s) (e_owner e)); [apply set_eff_ok; reflexivity|].
+  destruct (e_dirty e || e_first e); [|apply set_eff_ok; reflexivity].
+  set (s1 := set_eff s i _).
+  assert (B1 : bstep_ok s s1) by (apply set_eff_ok; reflexivity).
+  set (s2 := set_core s1 (cleanup (e_owner e) (b_core s1))).
+  assert (B2 : bstep_ok s1 s2) by (apply bstep_core, cstep_exec).
+  assert (B3 : bstep_ok s2 (blog s2 [LEff i])) by (apply blog_ok; reflexivity).
+  eapply bstep_trans; [exact B1|]. eapply bstep_trans; [exact B2|]. eapply bstep_trans; [exact B3|].
+  apply exec_body_ok.
+  pose proof (bwf_eff s i e W He) as Hb.
+  pose proof (bstep_len _ _ B1). pose proof (bstep_len _ _ B2). pose proof (bstep_len _ _ B3). lia.
+Qed.
+
+Lemma run_all_ok fuel : forall picks s, bwf s -> bstep_ok s (run_all fuel picks s).
+Proof.
+  induction fuel as [|f IH]; intros picks s W; cbn [run_all]; destruct (ready s) as [|r0 r];
+    try apply bstep_refl.
+  - apply bstep_core, cstep_skel, skel_set_err.
+  - pose proof (poll_ok (nth (Nat.modulo (hd 0 picks) (length (r0 :: r))) (r0 :: r) 0) s W) as B.
+    eapply bstep_trans; [exact B|]. apply IH. eapply bstep_bwf; eauto.
+Qed.
+
+Lemma user_body_lt s o b : user_body s o = Some b -> o < length (owners (b_core s)).
+Proof.
+  unfold user_body. destruct (nth_error (holders s) o) as [[[[]|?|?] b']|]; try discriminate.
+  destruct (alive (b_core s) o) eqn:Hal; [|discriminate]. intros _.
+  unfold alive in Hal. destruct (nth_error (owners (b_core s)) o) eqn:E; [|discriminate].
+  apply nth_error_Some. congruence.
+Qed.
+
+Lemma step_ok s x : bwf s -> bstep_ok s (step s x).
+Proof.
+  intros W. destruct x; cbn [step].
+  - destruct (user_body s o) as [b|] eqn:Hu; [|apply bstep_refl].
+    set (s1 := set_core s (cleanup o (b_core s))).
+    assert (B1 : bstep_ok s s1) by (apply bstep_core, cstep_exec).
+    eapply bstep_trans; [exact B1|]. apply exec_body_ok.
+    pose proof (user_body_lt s o b Hu). pose proof (bstep_len _ _ B1). lia.
+  - destruct (user_body s o); [apply bstep_core, cstep_exec|apply bstep_refl].
+  - destruct (user_body s o) as [b|]; [|apply bstep_refl].
+    set (s1 := mkB _ _ _ _ _ _).
+    assert (B1 : bstep_ok s s1) by (split; [apply cstep_refl|auto]).
+    eapply bstep_trans; [exact B1|]. apply bstep_core, cstep_exec.
+  - destruct (nth_error (effs s) e) as [ef|]; [|apply bstep_refl].
+    destruct (negb (e_first ef) && contains (b_core s) (e_key ef)); [apply set_eff_ok; reflexivity|apply bstep_refl].
+  - destruct (nth_error (memos s) m) as [mm|]; [|apply bstep_refl].
+    destruct (m_sub mm && contains (b_core s) (m_key mm)); [apply set_memo_ok; reflexivity|apply bstep_refl].
+  - destruct (nth_error (memos s) m) as [mm|] eqn:Hm; [|apply bstep_refl].
+    destruct (contains (b_core s) (m_key mm)); [|apply blog_ok; reflexivity].
+    destruct (m_dirty mm); [|apply blog_ok; reflexivity].
+    set (s1 := set_memo s m _).
+    assert (B1 : bstep_ok s s1) by (apply set_memo_ok; reflexivity).
+    set (s2 := set_core s1 (cleanup (m_owner mm) (b_core s1))).
+    assert (B2 : bstep_ok s1 s2) by (apply bstep_core, cstep_exec).
+    assert (B3 : bstep_ok s2 (blog s2 [LMemo m])) by (apply blog_ok; reflexivity).
+    assert (B4 : bstep_ok (blog s2 [LMemo m]) (exec_body (m_owner mm) (m_body mm) (blog s2 [LMemo m]))).
+    { apply exec_body_ok. pose proof (bwf_memo s m mm W Hm).
+      pose proof (bstep_len _ _ B1). pose proof (bstep_len _ _ B2). pose proof (bstep_len _ _ B3). lia. }
+    eapply bstep_trans; [exact B1|]. eapply bstep_trans; [exact B2|]. eapply bstep_trans; [exact B3|].
+    eapply bstep_trans; [exact B4|]. apply blog_ok. reflexivity.
+  - apply poll_ok. exact W.
+  - apply run_all_ok. exact W.
+  - destruct (user_body s o) as [b|] eqn:Hu; [|apply bstep_refl].
+    apply exec_body_ok. eapply user_body_lt; eauto.
+  - destruct (nth_error (handles s) h); [apply bstep_core, cstep_exec|apply bstep_refl].
+  - destruct (user_body s o); [apply bstep_core, cstep_skel, skel_set_paused|apply bstep_refl].
+  - destruct (user_body s o); [apply bstep_core, cstep_skel, skel_set_paused|apply bstep_refl].
+  - destruct (user_body s o); [apply blog_ok; reflexivity|apply bstep_refl].
+  - destruct (nth_error (memos s) m); [apply bstep_core, cstep_exec|apply bstep_refl].
+  - destruct (nth_error (effs s) e); [apply bstep_core, cstep_exec|apply bstep_refl].
+Qed.
+
+(** ** reachable program states *)
+Definition run_ops (s : bstate) (ops : list op) : bstate := fold_left step ops s.
+
+Definition good (s : bstate) : Prop := cinv (b_core s) /\ bwf s.
+
+Lemma good_step s x : good s -> good (step s x).
+Proof. intros [I W]. destruct (step_ok s x W) as [(Hi & _) Hw]. split; auto. Qed.
+
+Lemma good_run ops : forall s, good s -> good (run_ops s ops).
+Proof. unfold run_ops. induction ops as [|x ops IH]; intros s G; cbn; [exact G|]. apply IH, good_step, G. Qed.
+
+Lemma good_start b : good (start b).
+Proof.
+  unfold start. pose proof (cstep_new_owner None core0) as H.
+  pose proof (new_owner_len None core0) as Hl.
+  destruct (new_owner None core0) as [o c] eqn:E. cbn [snd] in *.
+  assert (Eo : o = 0) by (apply (f_equal fst) in E; cbn in E; auto). subst o.
+  set (s0 := mkB c [] [] [] [(HUser true, b)] []).
+  assert (G0 : good s0).
+  { split; [exact (proj1 H cinv_core0)|]. split; constructor. }
+  destruct G0 as [I0 W0].
+  assert (B : bstep_ok s0 (exec_body 0 b s0)) by (apply exec_body_ok; cbn; lia).
+  destruct B as [(Hi & _) Hw]. split; auto.
+Qed.
+
+Theorem reachable_good : forall b ops, good (run_ops (start b) ops).
+Proof. intros. apply good_run, good_start. Qed.
+
+Lemma arena_le_step s x : bwf s -> arena_le (b_core s) (b_core (step s x)).
+Proof. intros W. destruct (step_ok s x W) as [(_ & H & _) _]. exact H. Qed.
+
+Lemma arena_le_run ops : forall s, good s -> arena_le (b_core s) (b_core (run_ops s ops)).
+Proof.
+  unfold run_ops. induction ops as [|x ops IH]; intros s G; cbn; [apply arena_le_refl|].
+  eapply arena_le_trans; [apply arena_le_step, G|]. apply IH, good_step, G.
+Qed.
+
+(** * theorems over all programs and histories *)
+Definition final_core (b : list stmt) (ops : list op) : core := b_core (run_ops (start b) ops).
+
+(** over any history no cleanup runs twice *)
+Theorem cleanup_never_twice : forall b ops, NoDup (cids (clog (final_core b ops))).
+Proof.
+  intros b ops. destruct (reachable_good b ops) as [I _]. eapply NoDup_app_l. exact (ci_nd _ I).
+Qed.
+
+(** the structural facts the per-cleanup theorems need hold in every reachable state *)
+Theorem reachable_wf : forall b ops,
+  wfs (final_core b ops) /\ wfp (final_core b ops) /\ nd (final_core b ops).
+Proof. intros b ops. destruct (reachable_good b ops) as [I _]. destruct I; auto. Qed.
+
+(** no_leak: once every owner is gone, nothing is left in the arena *)
+Theorem no_leak : forall b ops,
+  let c := final_core b ops in
+  err c = false -> unowned c = false ->
+  (forall p ow, nth_error (owners c) p = Some ow -> o_alive ow = false) ->
+  arena_len c = 0.
+Proof.
+  intros b ops c He Hu Hdead. destruct (reachable_good b ops) as [I _]. fold (final_core b ops) in I. fold c in I.
+  unfold arena_len.
+  assert (H : forall i s, nth_error (slots c) i = Some s -> s_item s = None).
+  { intros i s Hs. destruct (s_item s) as [it|] eqn:Hit; [|reflexivity]. exfalso.
+    assert (Hv : valid c (i, s_ver s)).
+    { unfold valid, get. cbn. rewrite Hs, Nat.eqb_refl, Hit. discriminate. }
+    destruct (ci_reg c I He Hu _ Hv) as (p & ow & Hp & Hal & _). rewrite (Hdead p ow Hp) in Hal. discriminate. }
+  assert (Hall : forall l, (forall s, In s l -> s_item s = None) ->
+            filter (fun s => match s_item s with Some _ => true | None => false end) l = []).
+  { induction l as [|s l IH]; intros Hl; [reflexivity|]. cbn. rewrite (Hl s (or_introl eq_refl)).
+    apply IH. intros s' Hs'. apply Hl. right. exact Hs'. }
+  rewrite Hall; [reflexivity|]. intros s Hin. apply In_nth_error in Hin as (i & Hi). eauto.
+Qed.
+
+(** no_aba: a key that resolved and then stopped resolving never resolves again, whatever is
+    allocated, released or re-run afterwards *)
+Theorem no_aba : forall b ops1 ops2 ops3 k,
+  contains (final_core b ops1) k = true ->
+  contains (final_core b (ops1 ++ ops2)) k = false ->
+  contains (final_core b (ops1 ++ ops2 ++ ops3)) k = false.
+Proof.
+  intros b ops1 ops2 ops3 k H1 H2. unfold final_core, run_ops in *.
+  rewrite !fold_left_app in *.
+  set (s1 := fold_left step ops1 (start b)) in *.
+  assert (G1 : good s1) by (apply (good_run ops1), good_start).
+  set (s2 := fold_left step ops2 s1) in *.
+  assert (G2 : good s2) by (apply (good_run ops2), G1).
+  assert (St : stale (b_core s2) k).
+  { eapply disposed_is_stale; [apply (arena_le_run ops2 s1 G1)|exact H1|exact H2]. }
+  assert (St3 : stale (b_core (fold_left step ops3 s2)) k).
+  { eapply stale_le; [apply (arena_le_run ops3 s2 G2)|exact St]. }
+  unfold contains. rewrite (stale_get _ _ St3). reflexivity.
+Qed.
+
+(** an effect whose arena entry is gone does not run when its task is polled: the task ends *)
+Theorem disposed_effect_never_runs : forall s i e,
+  nth_error (effs s) i = Some e -> contains (b_core s) (e_key e) = false -> e_done e = false ->
+  let s' := poll i s in
+  (exists ef, nth_error (effs s') i = Some ef /\ e_done ef = true) /\
+  forall j, In (LEff j) (clog (b_core s')) -> In (LEff j) (clog (b_core s)).
+Proof.
+  intros s i e He Hc Hd s'. unfold s', poll. rewrite He.
+  unfold eff_ready. rewrite Hc, Hd. cbn [negb andb orb]. rewrite Bool.orb_true_r. cbn [negb].
+  split.
+  - cbn. rewrite nth_error_upd_same, He. cbn. eauto.
+  - intros j Hin. cbn [set_core b_core set_eff] in Hin.
+    destruct (exec_conserve (fuel_of (b_core s)) (JDrop (e_owner e)) (b_core s)) as [_ (l & E)].
+    unfold drop_owner in Hin. cbn [b_core set_eff] in Hin.
+    (* the cascade only logs cleanups *)
+    assert (Hlog : forall f jb c x, In x (clog (exec f jb c)) -> In x (clog c) \/ exists cid, x = LClean cid).
+    { clear. induction f as [|f IH]; intros jb c x Hin; [left; exact Hin|].
+      assert (Hfold : forall {X} (g : X -> core -> core) xs,
+                (forall y c0 x0, In x0 (clog (g y c0)) -> In x0 (clog c0) \/ exists cid, x0 = LClean cid) ->
+                forall c0 x0, In x0 (clog (fold_left (fun c y => g y c) xs c0)) ->
+                              In x0 (clog c0) \/ exists cid, x0 = LClean cid).
+      { intros X g xs Hg. induction xs as [|y xs IHx]; intros c0 x0 H0; cbn in H0; [left; exact H0|].
+        destruct (IHx _ _ H0) as [H|H]; [|right; exact H]. apply Hg in H. exact H. }
+      assert (Hrel : forall dead o ow,
+        In x (clog (fold_left (fun c k => exec f (JRemove k) c) (o_nodes ow)
+           (add_log (fold_left (fun c ch => exec f (JCleanup ch) c) (o_children ow)
+                       (upd_owner o (clear_owner dead) c))
+                    (rev (map LClean (o_cleanups ow)))))) -> In x (clog c) \/ exists cid, x = LClean cid).
+      { intros dead o ow H.
+        apply (Hfold _ (fun k c => exec f (JRemove k) c)) in H; [|intros; eapply IH; eauto].
+        destruct H as [H|H]; [|right; exact H]. cbn [add_log clog] in H. apply in_app_or in H as [H|H].
+        - right. apply in_rev in H. apply in_map_iff in H as (cid & <- & _). eauto.
+        - apply (Hfold _ (fun ch c => exec f (JCleanup ch) c)) in H; [|intros; eapply IH; eauto].
+          exact H. }
+      destruct jb as [o|o|k]; cbn [exec] in Hin.
+      - destruct (nth_error (owners c) o) as [ow|]; [|left; exact Hin].
+        destruct (o_alive ow); [eapply Hrel; eauto|left; exact Hin].
+      - destruct (nth_error (owners c) o) as [ow|]; [|left; exact Hin].
+        destruct (o_alive ow); [eapply Hrel; eauto|left; exact Hin].
+      - assert (Hl : clog (snd (remove k c)) = clog c) by (unfold remove; destruct (get c k); reflexivity).
+        destruct (remove k c) as [[it|] c'']; cbn in Hl; [|left; congruence].
+        destruct it; try (left; congruence). apply IH in Hin. rewrite Hl in Hin. exact Hin. }
+    apply Hlog in Hin. destruct Hin as [H|(cid & H)]; [exact H|discriminate].
+Qed.
